@@ -53,7 +53,7 @@ class ValueAdapter(Adapter):
         elif (
             old_node is not None
             and update_allowed(old_value)
-            and self.context.file._token_of_node(old_node) != new_token
+            and not self.context.file._same_tokens(old_node, new_token)
         ):
             flag = "update"
         else:
